@@ -131,7 +131,10 @@ def gen_messages(r, module, specs, header_frame):
         if r.random() < 0.2:
             fr = fr[:-4] + fr[-4:-2].lower() + fr[-2:]      # lower-case checksum characters are valid
         frames.append(fr)
-        seq += 1
+        if r.random() < 0.12:
+            frames.append(fr)       # the very same frame again (same number, same checksum): two frames, two records
+        if r.random() < 0.85:
+            seq += 1                # (some instruments number every frame alike)
         i += k
     return frames, {"records": n, "unknown": unknown, "violating": violating, "frames": len(frames)}
 
@@ -261,13 +264,26 @@ def run(ctx):
         if a.startswith("to_"):
             names.append(a[3:])
     seen = set()
-    for fmt in [n for n in names if not (n in seen or seen.add(n))]:
-        c = impl.Conn(fmt=fmt, use_default_fmt=(fmt is None))
-        c.event(("d", b"\x05"))
-        for fr in frames:
-            c.event(("d", fr))
-        ob = c.event(("d", b"\x04"))
-        f.case({"format": fmt})
+    good_frames = frames
+    # the same transmission with one record that violates its schema: astm and lis2a (and every unknown name) do not
+    # look at records at all; json fails as a whole
+    bad_frames = frames[:3] + [gens.frame(4, b"P|one|not-a-number", True)] + frames[3:]
+    import logging
+    for fmt, frames, level in [(n, fs, lv) for n in names if not (n in seen or seen.add(n))
+                               for fs, lv in ((good_frames, logging.DEBUG), (bad_frames, logging.DEBUG), (bad_frames, logging.INFO))]:
+        with common.log_level(level):
+            c = impl.Conn(fmt=fmt, use_default_fmt=(fmt is None))
+            c.event(("d", b"\x05"))
+            for fr in frames:
+                c.event(("d", fr))
+            ob = c.event(("d", b"\x04"))
+        if frames is bad_frames and (fmt == "json" or fmt is None):
+            f.case({"format": fmt, "violating_record": True})
+            if ob["delivered"]:
+                f.fail({"format": fmt, "item": repr(ob["delivered"][0])[:200]},
+                       "json delivers something for a transmission with a schema-violating record", "format-dispatch/json-partial")
+            continue
+        f.case({"format": fmt, "violating_record": frames is bad_frames, "log_level": logging.getLevelName(level)})
         f.count("known" if fmt in ("astm", "json", None) else "other-name")
         item = ob["delivered"][0] if ob["delivered"] else None
         if fmt == "astm":
